@@ -5,6 +5,7 @@
 (* order even when several Attest runs overlap.                                                 *)
 (*   Deliver   Attest is about to be called with this duty           -> Deliver                 *)
 (*   Fetch     AttestationData returned data / an error              -> Fetch / FetchErr        *)
+(*             (a response without data / source / target: data = Attester!Incomplete)          *)
 (*   Accounts  ValidatingAccountsForEpochByIndex(req) returned accts -> Accounts / AccountsErr  *)
 (*   Sign      SignBeaconAttestations was called with (req, data)    -> SignCall                *)
 (*   SignRet   ... returned (zero) / an error; req = the request as it reads at that moment     *)
@@ -13,6 +14,7 @@
 (*   SubmitRet ... returned ok / error; atts = the attestations as they read at that moment     *)
 (*                                                                   -> SubmitRet               *)
 (*   Hung      (watchdog) a run neither reached an interface nor returned: no action            *)
+(*   Crash     Attest panicked (recovered by the harness): no action                            *)
 (* What the service hands to the signer / submitter must stay what it was for the length of the *)
 (* call (the callee reads it whenever it likes): the lines at return repeat the arguments.      *)
 (*   Return    Attest returned                                       -> Housekeep               *)
@@ -46,18 +48,19 @@ TraceFetch ==
     /\ IF Line.err THEN FetchErr(Line.run) ELSE Fetch(Line.run, Line.data)
     /\ StateMatches
 
-\* the request shows which validators the run claimed in the marking loop
+\* the request shows which validators the run claimed in the marking loop (as a set: naming a validator
+\* twice to the account manager asks the signer for nothing)
 TraceAccounts ==
     /\ IsEvent("Accounts")
     /\ Range(Line.req) = run[Line.run].claimed
-    /\ Len(Line.req) = Cardinality(run[Line.run].claimed)
     /\ IF Line.err THEN AccountsErr(Line.run) ELSE Accounts(Line.run, Range(Line.accts))
     /\ StateMatches
 
+\* the request as the signer received it, position by position (account list beside committee list): a
+\* validator named at two positions of ONE call has been asked for twice - NoDoubleSign judges it
 TraceSign ==
     /\ IsEvent("Sign")
-    /\ Len(Line.req) = Cardinality(Range(Line.req))
-    /\ SignCall(Line.run, Range(Line.req), Line.data)
+    /\ SignCallSeq(Line.run, Line.req, Line.data)
     /\ StateMatches
 
 TraceSignRet ==
